@@ -134,7 +134,20 @@ func usesSnpOpts(entry string) bool {
 
 // defaultRootOnly: the caller names no root file, so the caller's root set is what the configured
 // getter serves at the documented default root URL.
-func defaultRootOnly(entry string) bool { return entry == "cli/verify/default-root" }
+func defaultRootOnly(entry string) bool { return strings.HasSuffix(entry, "/default-root") }
+
+// cliEntries: every CLI entry point, with the default-root variant (no --root_cert) of each command.
+// Only `verify` has its default-root variant in the flat entries list (cost); the root-source
+// product drives all three.
+func cliEntries() []string {
+	var out []string
+	for _, e := range entries {
+		if isCLI(e) {
+			out = append(out, e)
+		}
+	}
+	return append(out, "cli/sev-validate/default-root", "cli/tdx-validate/default-root")
+}
 
 const tpmEventLog = "/sys/kernel/security/tpm0/binary_bios_measurements"
 
@@ -145,10 +158,17 @@ type runCfg struct {
 	roots      []*x509.Certificate
 	now        time.Time
 	snpOptKind int
-	genuine    []byte            // a genuine endorsement of the same world (two-source entries)
-	attFmt     string            // attestation rendering for CLI entries: tpm|snpproto|raw (tdx: raw|tpm)
-	rootDER    bool              // hand the CLI a DER root file (only with exactly one root)
-	decoy      *x509.Certificate // served at the default root URL while the caller names its own root file
+	genuine    []byte // a genuine endorsement of the same world (two-source entries)
+	attFmt     string // attestation rendering for CLI entries: tpm|snpproto|raw (tdx: raw|tpm)
+	rootDER    bool   // hand the CLI a DER root file (only with exactly one root)
+	// rootSrc != "": the bytes of the caller's root source (the --root_cert file, or the body at the
+	// default root URL for the default-root entries) are rootBlob instead of a rendering of roots;
+	// "missing-file" = the source does not exist at all.
+	rootSrc  string
+	rootBlob []byte
+	// decoys are served at the default root URL while the caller names its own root file: roots the
+	// caller did NOT name (among them the one the endorsement really chains to).
+	decoys []*x509.Certificate
 }
 
 // run executes one entry point. pan != nil: the code under test panicked. skip != "": the harness
@@ -248,21 +268,25 @@ func run(c runCfg) (accepted bool, errText string, pan any, skip string) {
 		files := map[string][]byte{"e.binarypb": eb}
 		getter := &recGetter{body: map[string][]byte{}}
 		rootArgs := []string{"--root_cert", "roots.pem"}
+		blob, present := c.rootBlob, c.rootSrc != "missing-file"
+		if c.rootSrc == "" {
+			blob = pemOf(c.roots)
+			if c.rootDER && len(c.roots) == 1 {
+				blob = c.roots[0].Raw
+			}
+		}
 		if defaultRootOnly(c.entry) {
 			rootArgs = nil
-			if c.rootDER && len(c.roots) == 1 {
-				getter.body[gcetcbendorsement.DefaultRootURL] = c.roots[0].Raw
-			} else {
-				getter.body[gcetcbendorsement.DefaultRootURL] = pemOf(c.roots)
+			if present {
+				getter.body[gcetcbendorsement.DefaultRootURL] = blob
 			}
 		} else {
-			files["roots.pem"] = pemOf(c.roots)
-			if c.rootDER && len(c.roots) == 1 {
-				files["roots.pem"] = c.roots[0].Raw
+			if present {
+				files["roots.pem"] = blob
 			}
-			if c.decoy != nil {
+			if len(c.decoys) > 0 {
 				// the caller named its roots; what the default URL serves is none of them
-				getter.body[gcetcbendorsement.DefaultRootURL] = pemOf([]*x509.Certificate{c.decoy})
+				getter.body[gcetcbendorsement.DefaultRootURL] = pemOf(c.decoys)
 			}
 		}
 		snpAtt := func(ex map[string][]byte) (string, bool) {
@@ -279,8 +303,9 @@ func run(c runCfg) (accepted bool, errText string, pan any, skip string) {
 		}
 		var args []string
 		var ok bool
-		switch c.entry {
-		case "cli/verify", "cli/verify/default-root":
+		base := strings.TrimSuffix(c.entry, "/default-root")
+		switch base {
+		case "cli/verify":
 			args, ok = []string{"verify", "e.binarypb"}, true
 		case "cli/sev-validate":
 			skip, ok = snpAtt(nil)
@@ -310,7 +335,7 @@ func run(c runCfg) (accepted bool, errText string, pan any, skip string) {
 			}
 			files["quote.bin"] = fs[f]
 			args, ok = []string{"tdx", "validate", "quote.bin"}, true
-			if c.entry == "cli/tdx-validate" {
+			if base == "cli/tdx-validate" {
 				args = append(args, "--endorsement", "e.binarypb")
 			} else if _, err := os.Stat(tpmEventLog); err == nil {
 				return false, "", nil, "machine has a TPM event log"
@@ -372,10 +397,11 @@ func reachesCryptoStage(e *epb.VMLaunchEndorsement) bool {
 	if proto.Unmarshal(e.GetSerializedUefiGolden(), g) != nil {
 		return false
 	}
-	if len(g.GetCert()) == 0 || g.GetTimestamp() == nil {
+	if len(g.GetCert()) == 0 {
 		return false
 	}
-	legacy := !g.GetTimestamp().AsTime().After(uefiReleaseChange)
+	// an absent timestamp reads as the zero timestamp (timeproto.From), i.e. before the change
+	legacy := g.GetTimestamp() == nil || !g.GetTimestamp().AsTime().After(uefiReleaseChange)
 	return legacy || g.GetClSpec() != 0 || len(g.GetCommit()) != 0
 }
 
@@ -391,6 +417,16 @@ type caseSpec struct {
 	// fresh PSS signature) whose DER encoding ends in an ASCII white-space byte: a root file is binary
 	// and may end in any byte.
 	rootWS bool
+	// rootSrc: what the caller's root source (the --root_cert file; the body at the default root URL
+	// for default-root entries) holds at the CLI entries. A certificate-less kind (rootSrcCertless)
+	// is the CLI's rendering of an EMPTY caller root set and is used whenever the drawn root set is
+	// empty; "pem-with-text-around" renders a non-empty set. rootSrcVar picks the variant (which
+	// white space, how many bytes cut, ...).
+	rootSrc    string
+	rootSrcVar int
+	// attackerMade: the endorsement was made without any genuine key (TestAttackerMade): every case
+	// the reference rejects although its payload parses is non-trivial, whatever branch refuses it.
+	attackerMade bool
 	// pools, when non-nil, makes the cases of one history share their *x509.CertPool objects: one
 	// pool per (root kind, leaf), as a long-lived relying party keeps one pool for many verifications.
 	pools map[string]*x509.CertPool
@@ -404,13 +440,24 @@ func checkCase(t ev.TB, name string, cs caseSpec, w *world) (accepted bool) {
 		leaf = w.sign.cert
 	}
 	roots, pool := rootSet(rootKind, w, leaf)
-	if isCLI(entry) && len(roots) == 0 && !defaultRootOnly(entry) {
-		// a root file cannot express an empty or absent root set (an unparsable root file is refused
-		// before verification starts); use the foreign root instead so the case stays meaningful.
+	var rootBlob []byte
+	rootSrc := ""
+	switch {
+	case isCLI(entry) && len(roots) == 0 && rootSrcCertless(cs.rootSrc):
+		// the caller's root source holds no certificate: the caller trusts nothing
+		rootSrc = cs.rootSrc
+		rootBlob = certlessRootSource(rootSrc, cs.rootSrcVar, w)
+		roots, pool = nil, pki.Pool(nil)
+	case isCLI(entry) && len(roots) == 0 && !defaultRootOnly(entry):
+		// no root-source kind chosen by the caller of checkCase: use the foreign root instead so the
+		// case stays meaningful.
 		rootKind = "foreign-same-subject"
 		roots, pool = rootSet(rootKind, w, leaf)
+	case isCLI(entry) && len(roots) > 0 && cs.rootSrc == "pem-with-text-around":
+		rootSrc = cs.rootSrc
+		rootBlob = append(append([]byte("# roots of trust, exported for the verifier\nsubject=verif\n"), pemOf(roots)...), "\n# end of file\n"...)
 	}
-	if cs.rootWS && cs.rootDER && isCLI(entry) && len(roots) == 1 && roots[0] == w.root.cert {
+	if cs.rootWS && cs.rootDER && rootSrc == "" && isCLI(entry) && len(roots) == 1 && roots[0] == w.root.cert {
 		if r := w.rootEndingInWhitespace(); r != nil {
 			roots = []*x509.Certificate{r}
 			pool = pki.Pool(roots)
@@ -427,13 +474,25 @@ func checkCase(t ev.TB, name string, cs caseSpec, w *world) (accepted bool) {
 		}
 	}
 	now := pickTime(timeClass, leaf)
-	rc := runCfg{entry: entry, e: m.e, pool: pool, roots: roots, now: now, snpOptKind: cs.snpOptKind, attFmt: cs.attFmt, rootDER: cs.rootDER}
+	rc := runCfg{entry: entry, e: m.e, pool: pool, roots: roots, now: now, snpOptKind: cs.snpOptKind, attFmt: cs.attFmt, rootDER: cs.rootDER && rootSrc == "", rootSrc: rootSrc, rootBlob: rootBlob}
 	if strings.Contains(entry, "genuine-") {
 		rc.genuine, _ = proto.Marshal(pki.Endorse(baseGolden(), w.sign.cert.Raw, w.sign.rsa()))
 	}
-	if isCLI(entry) {
-		// never one of the caller's roots unless the caller listed it
-		rc.decoy = w.get("foreignRoot").cert
+	if isCLI(entry) && !defaultRootOnly(entry) {
+		// The default root URL serves every root of this world that the caller did NOT list: the one
+		// the genuine endorsement chains to, and the attacker's. Never one of the caller's roots.
+		for _, d := range []*x509.Certificate{w.root.cert, w.get("foreignRoot").cert} {
+			listed := false
+			for _, r := range roots {
+				listed = listed || bytes.Equal(r.RawSubjectPublicKeyInfo, d.RawSubjectPublicKeyInfo)
+			}
+			if !listed {
+				rc.decoys = append(rc.decoys, d)
+			}
+		}
+		if len(rc.decoys) > 0 {
+			ev.Class(name, fmt.Sprintf("cli-default-url-serves-%d-roots-the-caller-did-not-name", len(rc.decoys)))
+		}
 	}
 	accepted, errText, pan, skip := run(rc)
 	if skip != "" {
@@ -457,8 +516,17 @@ func checkCase(t ev.TB, name string, cs caseSpec, w *world) (accepted bool) {
 		if needsTdx(entry) {
 			tech = "tdx-validate"
 		}
-		ev.Violation(t, "C01/"+tech+"/accepted-unauthentic", "entry %s accepted an endorsement that is not authentic: %s (mutation=%s payload=%s roots=%s time=%s [%v] cert window [%v,%v])",
-			entry, why, m.kind, m.shape, rootKind, timeClass, now, leaf.NotBefore, leaf.NotAfter)
+		key := "C01/" + tech + "/accepted-unauthentic"
+		if len(rc.decoys) > 0 {
+			// root cause: would the endorsement be authentic if the roots served at the default root URL
+			// (which the caller did not name) were trusted next to the caller's?
+			if ok2, _, dec2 := refAuthentic(m.e, append(append([]*x509.Certificate(nil), roots...), rc.decoys...), now); ok2 && dec2 {
+				key = "C01/cli/root-not-named-by-caller-trusted"
+				why += "; it does chain to a root that is served at the default root URL but that the caller, who named a root file, did not list"
+			}
+		}
+		ev.Violation(t, key, "entry %s accepted an endorsement that is not authentic: %s (mutation=%s payload=%s roots=%s root source=%q time=%s [%v] cert window [%v,%v])",
+			entry, why, m.kind, m.shape, rootKind, rootSrc, timeClass, now, leaf.NotBefore, leaf.NotAfter)
 		return accepted
 	}
 	// Converse sanity, not the property: it keeps the check from going vacuous. Only where nothing but
@@ -467,6 +535,10 @@ func checkCase(t ev.TB, name string, cs caseSpec, w *world) (accepted bool) {
 	genuine := m.kind == "none" && (rootKind == "genuine" || rootKind == "both" || rootKind == "genuine-and-leaf") && timeClass == "inside"
 	if genuine && !accepted {
 		switch {
+		case shapeRefusedByPolicy(m.shape):
+			// authentic, but the verifier's documented release policy (provenance is mandatory after the
+			// release-process change) refuses it: not an authenticity question
+			ev.Class(name, "inconclusive/authentic-refused-by-provenance-policy")
 		case isPure(entry) && (shapeHasSnp(m.shape) || (!needsSnp(entry) && cs.snpOptKind == 0) || isCLI(entry)):
 			ev.Violation(t, "C01/genuine-rejected", "entry %s rejected a genuine endorsement (payload=%s roots=%s time=%s snpOpts=%d): %s", entry, m.shape, rootKind, timeClass, cs.snpOptKind, errText)
 			return accepted
@@ -478,6 +550,9 @@ func checkCase(t ev.TB, name string, cs caseSpec, w *world) (accepted bool) {
 		}
 	}
 	nontrivial := (!refOK && reachesCryptoStage(m.e)) || (refOK && accepted)
+	if cs.attackerMade {
+		nontrivial = (!refOK && payloadParses(m.e)) || (refOK && accepted)
+	}
 	outcome := "rejected"
 	if accepted {
 		outcome = "accepted"
@@ -487,7 +562,7 @@ func checkCase(t ev.TB, name string, cs caseSpec, w *world) (accepted bool) {
 		canon += "|" + strconv.Itoa(cs.snpOptKind)
 	}
 	if isCLI(entry) {
-		canon += "|" + cs.attFmt + "|" + strconv.FormatBool(cs.rootDER)
+		canon += "|" + cs.attFmt + "|" + strconv.FormatBool(cs.rootDER) + "|" + rootSrc
 	}
 	ev.Case(name, nontrivial, canon, m.kind+"/"+outcome, func() any {
 		return map[string]any{"entry": entry, "mutation": m.kind, "payload": m.shape, "roots": rootKind, "time": timeClass, "accepted": accepted, "reference_authentic": refOK, "why_not": why, "error": trunc(errText, 160)}
@@ -502,7 +577,14 @@ func checkCase(t ev.TB, name string, cs caseSpec, w *world) (accepted bool) {
 	if timeClass == "zero-now" {
 		ev.Class(name, "zero-now/"+outcome)
 	}
+	if rootSrc != "" {
+		ev.Class(name, "cli-root-source:"+rootSrc+"/"+outcome)
+	}
 	return accepted
+}
+
+func payloadParses(e *epb.VMLaunchEndorsement) bool {
+	return len(e.GetSerializedUefiGolden()) > 0 && proto.Unmarshal(e.GetSerializedUefiGolden(), &epb.VMGoldenMeasurement{}) == nil
 }
 
 func trunc(s string, n int) string {
@@ -514,7 +596,7 @@ func trunc(s string, n int) string {
 
 const oracleText = "oracle: accept => authentic(endorsement, caller's roots, caller's time): payload parses, certificate is a root or linked to one by valid issuer signatures, time inside its window (zero = now, judged only when a day either way agrees), RSA key, RSA-PSS/SHA-256 signature (any salt) over exactly the stored payload bytes; deliberately weaker than crypto/x509. Sanity (library verifier, closure, `verify` command only): unmutated + issuing root trusted + strictly inside window => accept; a genuine endorsement refused by a validate entry point is counted as inconclusive, not judged. non-trivial = reaches the certificate/signature stage and breaks an authenticity clause, or accepted authentic"
 
-const spaceText = "endorsement (harness CA, RSA-2048, PSS/SHA-256) over payload shape {base, pre-release-change timestamp without provenance, timestamp inside the certificate window, timestamp at the release change, far-future timestamp, commit provenance, SNP only, TDX only, CA bundle, SVSM measurement} x mutation {none, bit flip in signature/payload/certificate, truncate/extend signature, re-sign with attacker key, attacker self-signed cert, attacker cert from foreign root with identical subject, cert from the process's ambient system-store root, PKCS#1v1.5, PSS/SHA-384, certificate issued in another scheme with the endorsement signed in that scheme or in PSS/SHA-256, ECDSA / Ed25519 leaf genuinely issued with a signature by that key, payload field changed / unknown field appended / same content re-encoded with old signature, empty signature/certificate, root-as-cert, max-salt PSS, signature of another payload} x root set {genuine, foreign same-subject, both, empty pool, nil, leaf only, genuine+leaf} x time {inside, NotBefore-1s, NotBefore, NotAfter, NotAfter+1s, zero=now, far future} with drawn validity windows (a quarter long-lived) x entry point {verify.Endorsement, EndorsementProto, validator closure (blob/opts/getter/two sources), SevValidate (opts/extras/getter/two sources/VMSA count/forced fetch), TdxValidate (opts / fetched through a stubbed process-wide HTTP transport), CLI verify (root file or default root URL, PEM or DER) | sev validate (--endorsement, cert table, getter, forced fetch; tpm/proto/raw rendering) | tdx validate (--endorsement or fetched); a foreign root is served at the default root URL whenever the caller names a root file} x SNP options"
+const spaceText = "endorsement (harness CA, RSA-2048, PSS/SHA-256) over payload shape {base, pre-release-change timestamp without provenance, timestamp inside the certificate window, timestamp at the release change, far-future timestamp, commit provenance, SNP only, TDX only, CA bundle, SVSM measurement, recent timestamp without provenance (authentic when genuinely signed, refused by release policy: acceptance not demanded)} x mutation {none, bit flip in signature/payload/certificate, truncate/extend signature, re-sign with attacker key, attacker self-signed cert, attacker cert from foreign root with identical subject, cert from the process's ambient system-store root, PKCS#1v1.5, PSS/SHA-384, certificate issued in another scheme with the endorsement signed in that scheme or in PSS/SHA-256, ECDSA / Ed25519 leaf genuinely issued with a signature by that key, payload field changed / unknown field appended / same content re-encoded with old signature, empty signature/certificate, root-as-cert, max-salt PSS, signature of another payload} x root set {genuine, foreign same-subject, both, empty pool, nil, leaf only, genuine+leaf} x time {inside, NotBefore-1s, NotBefore, NotAfter, NotAfter+1s, zero=now, far future} with drawn validity windows (a quarter long-lived) x entry point {verify.Endorsement, EndorsementProto, validator closure (blob/opts/getter/two sources), SevValidate (opts/extras/getter/two sources/VMSA count/forced fetch), TdxValidate (opts / fetched through a stubbed process-wide HTTP transport), CLI verify (root file or default root URL, PEM or DER) | sev validate (--endorsement, cert table, getter, forced fetch; tpm/proto/raw rendering) | tdx validate (--endorsement or fetched); whenever the caller names a root file the default root URL serves the roots it did not list (genuine issuing root, foreign root); a drawn empty root set is rendered at the CLI as a certificate-less root source (zero bytes, white space, garbage, other PEM block, truncated PEM/DER, missing) or, 1 in 11, the older foreign-root stand-in; PEM with text around} x SNP options"
 
 func TestAuthenticity(t *testing.T) {
 	const name = "authenticity/random"
@@ -542,6 +624,10 @@ func TestAuthenticity(t *testing.T) {
 		cs.attFmt = pick(t, "attFmt", []string{"tpm", "snpproto", "raw"})
 		cs.rootDER = uniform(t, "rootDER", 3) == 0
 		cs.rootWS = cs.rootDER && uniform(t, "rootWS", 2) == 0
+		// CLI entries: what the root source holds when the drawn root set is empty ("" = the older
+		// stand-in, a foreign root), or a PEM rendering with text around it
+		cs.rootSrc = pick(t, "rootSrc", append([]string{"", "pem-with-text-around"}, rootSrcCertlessKinds...))
+		cs.rootSrcVar = uniform(t, "rootSrcVar", 1<<16)
 		checkCase(t, name, cs, w)
 	})
 }
